@@ -21,6 +21,9 @@ pub enum Existing {
     Copy(CopySpec),
     /// Introduced, declared dead, removed after the grace period (remembered as removed).
     Removed,
+    /// Known only through an earlier catch-up call (never gossiped, heartbeat 0), then declared
+    /// dead and removed after the grace period.
+    RemovedCatchupOnly,
 }
 
 #[derive(Clone, Debug, Serialize, Deserialize)]
@@ -84,9 +87,17 @@ async fn prepare(case: &CatchupCase, nodes: &mut [&mut Chitchat]) -> Result<(), 
                 install_copy(n, &x, c, 5)?;
             }
         }
-        Existing::Removed => {
+        Existing::Removed | Existing::RemovedCatchupOnly => {
             for n in nodes.iter_mut() {
-                feed(n, &intro);
+                if matches!(case.existing, Existing::Removed) {
+                    feed(n, &intro);
+                } else {
+                    let e = EntryS { key: 0, version: 1, status: 0 };
+                    n.reset_node_state_if_update(&x.to_real(), vec![vv(&e)].into_iter(), 1, 0);
+                    if n.node_state(&x.to_real()).is_none() {
+                        return Err("catch-up did not create the member".into());
+                    }
+                }
                 n.verif_update_nodes_liveness();
             }
             advance_ns(DEAD_GRACE_MS * 1_000_000 + 1).await;
@@ -98,7 +109,7 @@ async fn prepare(case: &CatchupCase, nodes: &mut [&mut Chitchat]) -> Result<(), 
             }
         }
     }
-    if !matches!(case.existing, Existing::Removed | Existing::Absent) {
+    if !matches!(case.existing, Existing::Removed | Existing::RemovedCatchupOnly | Existing::Absent) {
         for i in 0..case.heartbeats_before {
             advance_ns(500_000_000).await;
             for n in nodes.iter_mut() {
@@ -131,7 +142,7 @@ pub fn exec_catchup(case: &CatchupCase, tally: &mut Tally) -> Result<(), Failure
             return vio(&format!("C18/{}", p.signature()), format!("existing {:?}, supplied {:?}: {}", before, case.supplied, p.describe()));
         }
         let after = n.node_state(&xr).map(read_spec);
-        if matches!(case.existing, Existing::Removed) {
+        if matches!(case.existing, Existing::Removed | Existing::RemovedCatchupOnly) {
             if after.is_some() {
                 return vio("C18/recreated-removed-member", "a member remembered as garbage collected was recreated by the catch-up call".into());
             }
@@ -250,6 +261,7 @@ pub fn case_strategy() -> impl Strategy<Value = CatchupCase> {
         2 => Just(Existing::Empty),
         8 => copy_strategy(vmax).prop_map(Existing::Copy),
         1 => Just(Existing::Removed),
+        1 => Just(Existing::RemovedCatchupOnly),
     ];
     let supplied = (entries_strategy(vmax + 2), 0..=vmax + 3, 0..=vmax + 3, any::<bool>()).prop_map(|(mut entries, max_version, last_gc_version, consistent)| {
         if consistent {
